@@ -18,7 +18,9 @@ var values = []string{"1", "42", "abc", "a", "b", "users", "list", "new", "x1", 
 	// dot segments and dots inside segments: a captured remainder is handed over verbatim
 	"..", ".", "x..y", "v1..2", "..a",
 	// signed and padded numbers: an int constraint is "digits only"
-	"-5", "+7", "007", "1_0"}
+	"-5", "+7", "007", "1_0",
+	// digits only, but beyond 64 bits
+	"18446744073709551616", "99999999999999999999999"}
 
 var consPalette = []ConsT{
 	{Kind: "int"}, {Kind: "int"}, {Kind: "float"}, {Kind: "uuid"}, {Kind: "date"},
@@ -146,6 +148,9 @@ func genCons(r *hx.Rand, segs []string) []ConsT {
 			}
 			if r.Chance(1, 8) { // a Where call that is rejected (pattern does not compile; the caller recovers), before or after the others
 				bad := ConsT{Name: s[1:], Kind: "rejected", Arg: hx.Pick(r, rejectedPatterns)}
+				if r.Chance(1, 3) { // WhereRegex does not reject such a pattern: the constraint is void
+					bad.Kind = "badregex"
+				}
 				if r.Chance(2, 3) {
 					cs = append(cs[:len(cs)-1:len(cs)-1], bad, cs[len(cs)-1])
 				} else {
@@ -190,6 +195,14 @@ func splitGroups(r *hx.Rand, segs []string) ([]string, string) {
 		}
 	}
 	path := "/" + strings.Join(segs[start:], "/")
+	switch r.Intn(12) {
+	case 0: // the route is the group itself: g.GET("")
+		groups = append(groups, path)
+		path = ""
+	case 1: // … or the group with a trailing slash: g.GET("/") (a pattern outside the vocabulary: only model = code is judged)
+		groups = append(groups, path)
+		path = "/"
+	}
 	if r.Chance(1, 10) {
 		groups = append([]string{""}, groups...) // a group with an empty prefix
 	}
@@ -291,7 +304,106 @@ func GenScript(r *hx.Rand, maxRoutes int) []RegT {
 	if r.Chance(1, 8) {
 		script = addLongStatics(r, script, script[0].Method)
 	}
+	if r.Chance(1, 6) {
+		script = renamedSibling(r, script)
+	}
+	if r.Chance(1, 10) {
+		script = MountSome(r, script)
+	}
 	return script
+}
+
+// renamedSibling appends, for one parameter route of the script, a sibling that shares its prefix up to a parameter,
+// calls that parameter differently, constrains it, and goes on with a static segment: requests that instantiate the
+// original route also walk into the sibling, which rejects, and come back (the names of a rejected alternative must
+// leave no trace).
+func renamedSibling(r *hx.Rand, script []RegT) []RegT {
+	var cands []int
+	for i, g := range script {
+		if g.MountSub == 0 && strings.Contains(g.FullPath(), ":") && !strings.Contains(g.FullPath(), "*") {
+			cands = append(cands, i)
+		}
+	}
+	if len(cands) == 0 {
+		return script
+	}
+	g := script[hx.Pick(r, cands)]
+	segs := strings.Split(strings.TrimPrefix(g.FullPath(), "/"), "/")
+	var ps []int
+	for i, s := range segs {
+		if strings.HasPrefix(s, ":") {
+			ps = append(ps, i)
+		}
+	}
+	k := hx.Pick(r, ps)
+	name := hx.Pick(r, []string{"name", "key", "slug"})
+	sib := append([]string{}, segs[:k]...)
+	sib = append(sib, ":"+name)
+	if k+1 < len(segs) {
+		sib = append(sib, segs[k+1:]...)
+		sib[len(sib)-1] = hx.Pick(r, statics)
+	} else if r.Chance(1, 2) {
+		sib = append(sib, hx.Pick(r, statics))
+	}
+	c := hx.Pick(r, consPalette)
+	c.Name = name
+	out := append([]RegT{}, script...)
+	s2 := RegT{Method: g.Method, Path: "/" + strings.Join(sib, "/"), Cons: []ConsT{c}}
+	if r.Chance(1, 2) {
+		out = append(out, s2)
+	} else {
+		out = append([]RegT{s2}, out...)
+	}
+	return out
+}
+
+// genScriptPlain is GenScript without mounted blocks (for callers that reorder the script afterwards).
+func genScriptPlain(r *hx.Rand, maxRoutes int) []RegT {
+	script := genScriptBase(r, maxRoutes)
+	if r.Chance(1, 3) {
+		script = fanOut(r, script)
+	}
+	if r.Chance(1, 8) {
+		script = addLongStatics(r, script, script[0].Method)
+	}
+	return script
+}
+
+var mountPrefixes = []string{"/m", "/m/", "m", "/api/v1", "/a", "/users", "/", "/:x", "/a/:id"}
+
+// MountSome turns a contiguous block of the script into routes of a sub-router that is mounted at a prefix (in
+// place, so that the main router's registration order is the script order), and in one case out of three mounts
+// the same sub-router a second time, under another prefix, at the end of the script.
+func MountSome(r *hx.Rand, script []RegT) []RegT {
+	if len(script) == 0 {
+		return script
+	}
+	lo := r.Intn(len(script))
+	hi := min(len(script), lo+r.Range(1, 4))
+	prefix := hx.Pick(r, mountPrefixes)
+	out := append([]RegT{}, script[:lo]...)
+	var block []RegT
+	for k, g := range script[lo:hi] {
+		sub := g.FullPath()
+		if sub == "" {
+			sub = "/"
+		}
+		block = append(block, RegT{Method: g.Method, Cons: g.Cons, MountSub: 1, MountPrefix: prefix, SubPath: sub, SubIdx: k,
+			Path: MountJoin(prefix, sub)})
+	}
+	out = append(out, block...)
+	out = append(out, script[hi:]...)
+	if r.Chance(1, 3) {
+		second := hx.Pick(r, mountPrefixes)
+		if second != prefix {
+			for _, g := range block {
+				g.MountPrefix = second
+				g.Path = MountJoin(second, g.SubPath)
+				out = append(out, g)
+			}
+		}
+	}
+	return out
 }
 
 func genScriptBase(r *hx.Rand, maxRoutes int) []RegT {
@@ -352,6 +464,9 @@ func instantiate(r *hx.Rand, full string) string {
 		switch {
 		case s == "*":
 			k := r.Range(1, 3)
+			if r.Chance(1, 6) { // a remainder deeper than any pattern of the script
+				k = r.Range(4, 12)
+			}
 			for j := 0; j < k; j++ {
 				out = append(out, hx.Pick(r, values))
 			}
@@ -465,11 +580,11 @@ func GenScriptWide(r *hx.Rand) []RegT {
 	var script []RegT
 	switch r.Intn(4) {
 	case 0:
-		script = GenScript(r, 8)
+		script = genScriptPlain(r, 8)
 	case 1:
-		script = GenScript(r, 25)
+		script = genScriptPlain(r, 25)
 	default:
-		script = GenScript(r, 14)
+		script = genScriptPlain(r, 14)
 	}
 	mainMethod := script[0].Method
 	// top up with static routes so that the static tables straddle ten entries
@@ -511,6 +626,9 @@ func GenScriptWide(r *hx.Rand) []RegT {
 		}
 	}
 	hx.Shuffle(r, script)
+	if r.Chance(1, 10) { // after the shuffle: the regs of one Mount call stay together
+		script = MountSome(r, script)
+	}
 	return script
 }
 
@@ -559,6 +677,12 @@ func GenReqWide(r *hx.Rand, script []RegT) ReqT {
 			rest = q.Path[1+i:]
 		}
 		q.Path = "/" + hx.Pick(r, []string{"é", "ü1", "\xff", "日本"}) + rest
+	}
+	if r.Chance(1, 25) && len(q.Path) > 1 && q.Path[0] == '/' {
+		// no leading slash (a router behind http.StripPrefix sees such paths): outside the canonical domain, but
+		// the two engines still have to agree
+		q.Path = q.Path[1:]
+		q.Raw = ""
 	}
 	return q
 }
